@@ -479,3 +479,34 @@ BASE_TRUSTED = [
     'Python correspondence harness under /verif/harness (generators, drivers, canonicalisation, monitors)',
     'CPython 3.12, gevent, struct; see DESIGN.md section 8',
 ]
+
+# ---- source fingerprints ---------------------------------------------------------------------------------------------
+def ast_fingerprint(path):
+  """Hash of a Python file's AST with docstrings removed; None if the file is missing or does not parse."""
+  import ast
+  import hashlib
+  try:
+    tree = ast.parse(open(path, 'rb').read())
+  except Exception:
+    return None
+  for node in ast.walk(tree):
+    body = getattr(node, 'body', None)
+    if isinstance(node, (ast.Module, ast.ClassDef, ast.FunctionDef, ast.AsyncFunctionDef)) and body:
+      first = body[0]
+      if isinstance(first, ast.Expr) and isinstance(getattr(first, 'value', None), ast.Constant) and isinstance(first.value.value, str):
+        node.body = body[1:] or [ast.Pass()]
+  return hashlib.sha256(ast.dump(tree, annotate_fields=False, include_attributes=False).encode()).hexdigest()[:16]
+
+
+def source_drift(pid):
+  """Anchored source files of the property whose AST differs from the fingerprint recorded when the model was last
+  reconciled with /repo (anchors.json).  A non-empty answer does not mean anything is wrong - it makes the quick check
+  sample more (see runner)."""
+  try:
+    allrec = json.load(open(os.path.join(VERIF, 'anchors.json')))
+    if allrec.get('_python') != '%d.%d' % sys.version_info[:2]:
+      return []          # fingerprints of another interpreter version are not comparable
+    rec = allrec.get(pid, {})
+  except Exception:
+    return []
+  return sorted(f for f, h in rec.items() if ast_fingerprint(os.path.join(REPO, f)) != h)
